@@ -6,6 +6,7 @@ import itertools
 import json
 import math
 import random
+from decimal import Decimal
 
 from harness import common as C
 from harness import gen, model, ref
@@ -45,6 +46,24 @@ class Obj:
 
     def __repr__(self):
         return f'Obj({self.k})'
+
+
+class Never:
+    """a value that equals nothing, itself included (like a NaN, but for `==` only; hashable, so it can be a plain default)"""
+
+    def __eq__(self, other):
+        return False
+
+    def __ne__(self, other):
+        return True
+
+    __hash__ = object.__hash__
+
+    def __repr__(self):
+        return 'NEVER'
+
+
+NEVER = Never()
 
 
 class Col(enum.Enum):
@@ -103,7 +122,12 @@ def run(ctx: C.Ctx):
     ctx.rule += (' The slots per-field / Meta.skip_if / Meta.skip_defaults_if are populated in every combination. Histories: a nested class N '
                  'with or without rules of its own, one or two outer classes whose recursive Meta carries skip rules, and a holder class '
                  'without any Meta, dumped in random orders with N also on its own; the key set at every level of every step vs the '
-                 'reference under the documented cascade.')
+                 'reference under the documented cascade. Histories in which the first dump / load of a class comes before a class named '
+                 'in one of its string annotations is defined (fails inside the per-class setup), then that class is defined and the dump '
+                 'is repeated; dump=False / skip_if_field / Annotated SkipIf (also as a string) on the fields around the forward reference. '
+                 'Defaults on the identity / equality boundary: NaN float / Decimal NaN / an object that equals nothing / tuples holding '
+                 'them, with the instance keeping the default object, a fresh object from the same expression or another value, '
+                 'under skip_defaults from Meta and argument; reference = operator == against the default object of the class.')
     ncls = ctx.quick(160, 2500)
     reqs, pend = [], []
     idx = 0
@@ -210,6 +234,10 @@ def run(ctx: C.Ctx):
     literal_stream(ctx, idx, reqs, pend)
     # ---- histories over a nested class, a configured outer class and an unconfigured holder
     nested_history_stream(ctx)
+    # ---- histories in which the first use of a class fails inside the per-class setup and is repeated
+    failed_first_stream(ctx)
+    # ---- defaults on the identity / equality boundary (a default that does not equal itself, still held by the instance)
+    default_identity_stream(ctx)
     if ctx.model_available:
         outs = ctx.driver.run(reqs)
         for (case, impl), o in zip(pend, outs):
@@ -266,7 +294,10 @@ def render(cname, fields, conds, meta_conds, meta_sd, style='meta', recursive=No
             rhs = f"json_field({name!r}, dump=False" + (f', default={d})' if d is not None else ')')
             lines.append(f'    {name}: Any = {rhs}')
         elif c is not None and f.get('ann'):
-            lines.append(f'    {name}: Annotated[Any, SkipIf({cond_expr(c)})]' + (f' = {d}' if d is not None else ''))
+            ann = f'Annotated[Any, SkipIf({cond_expr(c)})]'
+            if f.get('ann_quoted'):      # the whole annotation written as a string, resolved by the library on first use
+                ann = repr(ann)
+            lines.append(f'    {name}: {ann}' + (f' = {d}' if d is not None else ''))
         elif c is not None:
             lines.append(f'    {name}: Any = skip_if_field({cond_expr(c)}' + (f', default={d})' if d is not None else ')'))
         elif f.get('noinit'):
@@ -457,7 +488,255 @@ def nested_history_stream(ctx, base=10_000_000):
             built.close()
 
 
-def reference(order, conds, meta_conds, meta_sd, vals, E, sd, CV, eager):
+ROOT_FIELD_NAMES = ['pp', 'qq', 'rr', 'ss', 'tt']
+FIRST_USES = [['dump'], ['dump'], ['dump'], ['load'], ['load'], ['dump', 'dump'], ['load', 'dump'], ['dump', 'load'], ['dump-kw']]
+
+
+def failed_first_stream(ctx, base=20_000_000):
+    """A class R one of whose annotations is a *string* naming a class N that is defined only later (a forward reference).  The
+    library resolves it when R is first set up for dumping / loading, so uses of R that come before N exists fail (on any version;
+    what happens there is recorded, not judged).  Then N is defined and R is dumped several times: the key set of R and of every
+    nested N must be the reference selection - what an identical class that never saw the failed attempt gives.  The fields of R
+    around the forward reference carry the declarations the per-class setup collects (dump=False, skip_if_field, Annotated SkipIf -
+    also written as a string -, defaults) and R's Meta the class-wide rules."""
+    from dataclass_wizard import asdict, fromdict
+    n = ctx.quick(350, 5000)
+    for j in range(n):
+        i = base + j
+        if ctx.done(i):
+            break
+        if ctx.only is not None and ctx.only != i:
+            continue
+        rng = random.Random(f'C11:{ctx.seed}:failed-first:{j}')
+        R, N = model.fresh('R'), model.fresh('N')
+        n_style = rng.choice(['plain', 'plain', 'wizard', 'meta'])
+        n_order, n_conds = _gen_fields(rng, rng.sample(NESTED_FIELD_NAMES, rng.randint(1, 3)), allow_conds=True)
+        n_mconds, n_sd = _gen_rules(rng, False) if n_style == 'meta' else ({}, None)
+        src2 = render(N, n_order, n_conds, n_mconds, n_sd, style=n_style)
+        # ---- R: declarations on most fields, the forward reference towards the front of its partition
+        r_style = rng.choice(['meta', 'meta', 'meta', 'wizard', 'plain'])
+        r_order, r_conds = _gen_fields(rng, rng.sample(ROOT_FIELD_NAMES, rng.randint(2, 4)), allow_conds=True)
+        for f in r_order:
+            if f['name'] not in r_conds and not f.get('dump_skip') and rng.random() < 0.45:
+                if rng.random() < 0.45:
+                    f['dump_skip'] = True
+                else:
+                    r_conds[f['name']] = pick_cond(rng)
+                    f['ann'] = rng.random() < 0.5
+            if f.get('ann') and rng.random() < 0.3:
+                f['ann_quoted'] = True
+        shape = rng.choice(sorted(NEST_ANN))
+        fwd = {'name': 'nn', 'ann_src': repr(NEST_ANN[shape].format(N))}
+        n_req = sum(1 for f in r_order if 'dflt_expr' not in f)
+        if shape == 'optional' and rng.random() < 0.4:
+            fwd['dflt_expr'] = 'None'
+            lo, hi = n_req, len(r_order)
+        else:
+            lo, hi = 0, n_req
+        r_order.insert(rng.choice([lo, lo, rng.randint(lo, hi)]), fwd)
+        r_mconds, r_sd = _gen_rules(rng, False) if r_style == 'meta' else ({}, None)
+        rec = rng.choice([None, None, None, True, False]) if r_style == 'meta' else None
+        recursive = r_style == 'meta' and rec is not False
+        src1 = render(R, r_order, r_conds, r_mconds, r_sd, style=r_style, recursive=rec)
+        first = rng.choice(FIRST_USES)
+        src = src1 + '# ---- defined only after the first use(s) of the class above: ' + ', '.join(first) + '\n' + src2
+        if not ctx.begin_case(i):
+            continue
+        try:
+            built = model.Built(T('any'), extra_src=SRC_EXTRA + src1)
+        except Exception as e:
+            ctx.count('build_error')
+            ctx.notes.setdefault('build_errors', []).append(repr(e)[:300] + src1[:300])
+            continue
+        try:
+            CV = built.get('CV')
+            RC = built.get(R)
+            names = [f['name'] for f in r_order]
+            # ---- the uses that come too early
+            vals0 = _gen_vals(rng, r_order, r_conds, r_mconds, CV)
+            vals0['nn'] = None
+            trace = []
+            for use in first:
+                try:
+                    if use == 'load':
+                        fromdict(RC, {})
+                    elif use == 'dump-kw':
+                        asdict(RC(**vals0), exclude=[names[0]], skip_defaults=True)
+                    else:
+                        asdict(RC(**vals0))
+                    outcome = 'ok'
+                except Exception as e:
+                    outcome = type(e).__name__
+                trace.append({'too_early': use, 'outcome': outcome})
+            ctx.count('failed_first:' + ('failed' if any(t['outcome'] != 'ok' for t in trace) else 'did-not-fail'))
+            exec(compile(src2, f'<{built.modname}:2>', 'exec', dont_inherit=True), built.mod.__dict__)
+            NC = built.get(N)
+
+            def new_inner():
+                return NC(**_gen_vals(rng, n_order, n_conds, n_mconds, CV))
+
+            n_eff = (dict(r_mconds, **n_mconds), n_sd if n_sd is not None else r_sd) if recursive else (n_mconds, n_sd)
+            for step_no in range(rng.randint(1, 3)):
+                vals = _gen_vals(rng, r_order, r_conds, r_mconds, CV)
+                k_ = rng.choice([0, 1, 2])
+                vals['nn'] = {'bare': new_inner, 'optional': lambda: rng.choice([None, new_inner()]),
+                              'list': lambda: [new_inner() for _ in range(k_)],
+                              'dict': lambda: {f'k{q}': new_inner() for q in range(k_)}}[shape]()
+                x = RC(**vals)
+                v = vals['nn']
+                nested = [v] if isinstance(v, NC) else list(v.values()) if isinstance(v, dict) else list(v or [])
+                E = None if rng.random() < 0.5 else [nm for nm in names if rng.random() < 0.3]
+                sd = rng.choice([None, None, True, False])
+                kw = {}
+                if E is not None:
+                    kw['exclude'] = E
+                if sd is not None:
+                    kw['skip_defaults'] = sd
+                trace.append({'step': step_no, 'dump': R, 'instance': repr(x)[:300], 'exclude': E, 'skip_defaults': sd})
+                ctx.seen('skip:failed-first', {'src': src, 'step': step_no, 'x': repr(x)[:300], 'E': E, 'sd': sd})
+                try:
+                    d = asdict(x, **kw)
+                    got = ('ok', list(d.keys()))
+                except Exception as e:
+                    d, got = None, ('err', type(e).__name__, str(e)[:200])
+                top_refs = [reference(r_order, r_conds, r_mconds, r_sd, _vals_of(x, r_order), E, sd, CV, eager) for eager in (False, True)]
+                nested_refs = [[reference(n_order, n_conds, n_eff[0], n_eff[1], _vals_of(y, n_order), None, None, CV, eager)
+                                for eager in (False, True)] for y in nested]
+                snap = {'src': src, 'history': [dict(t) for t in trace]}
+                if got[0] == 'err':
+                    may_raise = any(r[0] == 'err' for r in top_refs) or any(r[0] == 'err' for rs in nested_refs for r in rs)
+                    if not (got[1] == 'TypeError' and may_raise):
+                        ctx.fail('skip:failed-first', snap, f'step {step_no}, after the too-early use(s) {trace[:len(first)]!r}: asdict({x!r:.200}, {kw}) '
+                                                            f'gave {got!r}; reference selection {top_refs[0]!r}')
+                    continue
+                if not _accept(got[1], top_refs):
+                    ctx.fail('skip:failed-first', snap, f'step {step_no}, after the too-early use(s) {trace[:len(first)]!r}: asdict({x!r:.200}, {kw}) '
+                                                        f'has keys {got[1]!r}; reference selection {top_refs[0]!r} (lazy) / {top_refs[1]!r} (eager)')
+                if 'nn' in d and nested:
+                    dv = d['nn']
+                    dumped = [dv] if isinstance(dv, dict) and shape in ('bare', 'optional') else \
+                        list(dv.values()) if isinstance(dv, dict) else list(dv)
+                    for y, dy, refs in zip(nested, dumped, nested_refs):
+                        if not (isinstance(dy, dict) and _accept(list(dy.keys()), refs)):
+                            ctx.fail('skip:failed-first', snap, f'step {step_no}: inside asdict of {R}, the nested {y!r:.200} was written with keys '
+                                                                f'{list(dy.keys()) if isinstance(dy, dict) else dy!r}; reference selection {refs[0]!r} '
+                                                                f'(rules in force for it: {n_eff!r:.300})')
+        finally:
+            built.close()
+
+
+# defaults whose `==` is not reflexive, next to ordinary ones; the last two are equal to themselves only through the identity
+# shortcut of container comparison
+ODD_DEFAULTS = ["float('nan')", "Decimal('NaN')", 'NEVER', "float('nan')", "Decimal('NaN')", "-float('nan')", "(float('nan'),)", "(NEVER, 1)"]
+PLAIN_DEFAULTS = ['None', '0', '5', "'x'", '2.5', "''", 'True', "float('inf')", "Decimal('1.50')", '()', '(1, 2)', 'Col.RED', '10 ** 30']
+SRC_EXTRA_DEFAULTS = 'from harness.props.c11 import NEVER\n'
+
+
+def _pick_unordered_cond(rng):
+    """a condition without an ordering operator (an ordering comparison with Decimal('NaN') raises InvalidOperation: not a selection)"""
+    while True:
+        c = pick_cond(rng)
+        if c[0] not in ('<', '<=', '>', '>='):
+            return c
+
+
+def default_identity_stream(ctx, base=30_000_000):
+    """skip_defaults (Meta and / or argument) is documented as `value == default`.  For most defaults "the field still holds its
+    default object" and "the value equals the default" coincide; they come apart for defaults whose == is not reflexive (float NaN,
+    Decimal NaN, objects with an __eq__ of their own).  Classes mix such defaults with ordinary ones; every field of an instance
+    either keeps the default object (left out of the constructor call, or passed that very object), gets a fresh object built from
+    the same expression, or another value.  Reference: operator == against the default object the class really carries."""
+    import dataclasses
+    from dataclass_wizard import asdict
+    n = ctx.quick(250, 4000)
+    for j in range(n):
+        i = base + j
+        if ctx.done(i):
+            break
+        if ctx.only is not None and ctx.only != i:
+            continue
+        rng = random.Random(f'C11:{ctx.seed}:default-identity:{j}')
+        cname = model.fresh('D')
+        style = rng.choice(['meta', 'meta', 'wizard', 'plain'])
+        fields, conds = [], {}
+        for q in range(rng.randint(2, 5)):
+            f = {'name': f'dd{q}'}        # a name every key transform leaves alone: the comparison is about which fields are written
+            r = rng.random()
+            if r < 0.5:
+                f['dflt_expr'] = rng.choice(ODD_DEFAULTS)
+            elif r < 0.85:
+                f['dflt_expr'] = rng.choice(PLAIN_DEFAULTS)
+            if rng.random() < 0.12:
+                conds[f['name']] = _pick_unordered_cond(rng)
+                f['ann'] = rng.random() < 0.4
+            fields.append(f)
+        order = [f for f in fields if 'dflt_expr' not in f] + [f for f in fields if 'dflt_expr' in f]
+        meta_conds, meta_sd = {}, None
+        if style == 'meta':
+            meta_sd = rng.choice([None, True, True, False])
+            if rng.random() < 0.15:
+                meta_conds['skip_if'] = _pick_unordered_cond(rng)
+            if rng.random() < 0.1:
+                meta_conds['skip_defaults_if'] = _pick_unordered_cond(rng)
+        src = render(cname, fields, conds, meta_conds, meta_sd, style=style)
+        if not ctx.begin_case(i):
+            continue
+        try:
+            built = model.Built(T('any'), extra_src=SRC_EXTRA + SRC_EXTRA_DEFAULTS + src)
+        except Exception as e:
+            ctx.count('build_error')
+            ctx.notes.setdefault('build_errors', []).append(repr(e)[:300] + src[:300])
+            continue
+        try:
+            CV = built.get('CV')
+            Cls = built.get(cname)
+            defaults = {f.name: f.default for f in dataclasses.fields(Cls) if f.default is not dataclasses.MISSING}
+            names = [f['name'] for f in order]
+            for inst_i in range(2):
+                kwargs, how = {}, {}
+                for f in order:
+                    nm = f['name']
+                    r = rng.random()
+                    if 'dflt_expr' in f and r < 0.35:
+                        how[nm] = 'left at its default'
+                    elif 'dflt_expr' in f and r < 0.5:
+                        kwargs[nm], how[nm] = defaults[nm], 'the default object, passed'
+                    elif 'dflt_expr' in f and r < 0.7:
+                        kwargs[nm], how[nm] = eval(f['dflt_expr'], dict(built.mod.__dict__)), 'fresh object from the default expression'
+                    else:
+                        kwargs[nm], how[nm] = rng.choice(FIELD_VALUES + [float('nan'), Decimal('NaN'), NEVER]), 'other'
+                x = Cls(**kwargs)
+                vals = _vals_of(x, order)
+                subsets = [None] + rng.sample([list(c_) for r_ in range(len(names)) for c_ in itertools.combinations(names, r_)],
+                                              min(2, 2 ** len(names) - 1))
+                for E in subsets:
+                    for sd in (None, True, False):
+                        kw = {}
+                        if E is not None:
+                            kw['exclude'] = E
+                        if sd is not None:
+                            kw['skip_defaults'] = sd
+                        case = {'src': src, 'values': repr(vals), 'held': how, 'exclude': E, 'skip_defaults': sd}
+                        ctx.seen('skip:default-identity', case)
+                        try:
+                            got = ('ok', list(asdict(x, **kw).keys()))
+                        except Exception as e:
+                            got = ('err', type(e).__name__, str(e)[:200])
+                        exps = [reference(order, conds, meta_conds, meta_sd, vals, E, sd, CV, eager, defaults=defaults) for eager in (False, True)]
+                        okk = False
+                        for exp in exps:
+                            if exp[0] == 'err':
+                                okk = okk or (got[0] == 'err' and got[1] == 'TypeError')
+                            else:
+                                okk = okk or (got[0] == 'ok' and got[1] == exp[1])
+                        if not okk:
+                            ctx.fail('skip:default-identity', case, f'asdict({x!r:.300}, {kw}) gave {got!r}; reference selection (value == default) '
+                                                                    f'{exps[0]!r} (lazy) / {exps[1]!r} (eager); fields: {how!r}')
+        finally:
+            built.close()
+
+
+def reference(order, conds, meta_conds, meta_sd, vals, E, sd, CV, eager, defaults=None):
     """key set per the property statement, conditions evaluated by Condition.evaluate on the very comparison
     objects the class was declared with"""
     from dataclass_wizard.models import Condition
@@ -478,7 +757,8 @@ def reference(order, conds, meta_conds, meta_sd, vals, E, sd, CV, eager):
                 if c is not None:
                     drop = bool(ev(c, v))
                 else:
-                    drop = bool(v == eval(f['dflt_expr']))
+                    # `defaults`: the default objects the class really carries (else rebuilt from the expression)
+                    drop = bool(v == (defaults[name] if defaults is not None else eval(f['dflt_expr'])))
             if f.get('dump_skip'):
                 drop = True
             if drop and not eager:
